@@ -145,6 +145,13 @@ def rand_job(seed):
     prog = gen_struct.rprogram(rnd, maxdepth=rnd.choice([2, 3, 4]))
     text = '\n'.join(A.struct_text(prog)) + '\n'
     script = realrun.bare_script.parse_script(text)
+    if rnd.random() < 0.2:
+        # a parsed model with one label statement deleted: its jumps now dangle, whatever the label is called
+        scopes = [script['statements']] + [s['function']['statements'] for s in script['statements'] if 'function' in s]
+        scope = rnd.choice(scopes)
+        labs = [i for i, s in enumerate(scope) if 'label' in s]
+        if labs:
+            del scope[rnd.choice(labs)]
     vals = [{'t': 'num', 'f': 'q', 'n': 1, 'd': 1}, {'t': 'null'}, {'t': 'str', 'v': A.cps('a')}, {'t': 'array', 'v': [{'t': 'num', 'f': 'q', 'n': 2, 'd': 1}]}]
     g = [{'name': n, 'val': rnd.choice(vals)} for n in gen_struct.GVARS] + [{'name': 'garr', 'val': vals[3]}, {'name': 'gdepth', 'val': {'t': 'num', 'f': 'q', 'n': 0, 'd': 1}}]
     return cases_for(script, g)
